@@ -302,6 +302,10 @@ class Array:
             if self._dtype.name != other_dtype.name or self._dtype.length != other_dtype.length:
                 raise ValueError(
                     f"Cannot extend an Array with format '{self._dtype}' from an array with typecode '{iterable.typecode}'.")
+            # The size of some array typecodes depends on the platform ('l' can be 8 bytes), so check the real width.
+            if iterable.itemsize * 8 != self._dtype.bitlength:
+                raise ValueError(
+                    f"Cannot extend an Array with format '{self._dtype}' from an array with typecode '{iterable.typecode}' as its items are {iterable.itemsize * 8} bits long.")
             self.data += iterable.tobytes()
         else:
             if isinstance(iterable, str):
